@@ -183,7 +183,7 @@ package syncer
 //@   ensures app: appHavocRel(old(ghost_last), ghost_last, old(ghost_lastApp), ghost_lastApp, old(ghost_unpub), ghost_unpub, old(ghost_uncap), ghost_uncap, old(ghost_pend), ghost_pend)
 
 // Configuration is fixed when the Syncer is constructed.
-//@ immutable Syncer.c, Syncer.lc, Syncer.opt, Syncer.name
+//@ immutable Syncer.c, Syncer.lc, Syncer.opt, Syncer.name, Syncer.hooks
 
 //@ func (s *Syncer) instanceID
 //@   trusted
@@ -198,6 +198,7 @@ package syncer
 //@   requires not_in_txn: ghost_inTxn == 0
 //@   requires retry_budget: s.c.StorageRetryCount >= 1 || s.c.StorageRetryForever
 //@   modifies *
+//@   at_call cleaner.(*Worker).SetCommitted#0 assert only_after_store: ghost_nstore == old(ghost_nstore) + 1
 //@   loop 0 invariant not_stored: ghost_nstore == old(ghost_nstore)
 //@   loop 0 invariant inv: ghostInv()
 //@   loop 0 invariant not_in_txn: ghost_inTxn == 0
@@ -278,9 +279,25 @@ package syncer
 
 // ---------------------------------------------------------------- shadow mode wiring (C11, C20)
 
+// readDBI copies every entry the cursor delivers into the snapshot DBI
+// (no entry is skipped when no filter hook is installed), with the key as
+// stored, the header split into timestamp and synced flags (or nothing at all
+// in raw mode), the original DBI's name and flags, and the dupsort transform
+// exactly for duplicate-key DBIs.
 //@ func (s *Syncer) readDBI
 //@   trusted
 //@   pure
+//@   requires no_filter_hook: s.hooks.FilterReadDBI == nil
+//@   after_call lmdb.(*Txn).OpenDBI#0 ghost loc_got := 0
+//@   after_call lmdb.(*Cursor).Get#0 ghost loc_got := ite(ret2 == nil, 1, 0)
+//@   after_call snapshot.(*DBI).Append#0 ghost loc_got := 0
+//@   loop 0 invariant every_entry_appended: ghost_loc_got == 0
+//@   at_call snapshot.(*DBI).SetName#0 assert original_name: arg1 == origDBIName
+//@   at_call snapshot.(*DBI).SetTransform#0 assert transform_iff_dupsort: isDupSort
+//@   at_call snapshot.(*DBI).SetFlags#0 assert original_flags: arg1 == uint64(dbiFlags) && iff(isDupSort, dbiFlags & 4 != 0)
+//@   at_call snapshot.(*DBI).Append#0 assert key_as_stored: sameSlice(arg1.Key, key)
+//@   at_call snapshot.(*DBI).Append#0 assert header_split: !rawValues ==> arg1.TimestampNano == uint64(ts) && arg1.Flags == uint32(uint8(flags) & 1) && sameSlice(arg1.Value, val)
+//@   at_call snapshot.(*DBI).Append#0 assert raw_mode: rawValues ==> arg1.TimestampNano == 0 && arg1.Flags == 0 && sameSlice(arg1.Value, val)
 
 //@ func dupSortHackEncode
 //@   trusted
@@ -301,3 +318,17 @@ package syncer
 //@ func New
 //@   modifies *
 //@   ensures receive_only_disables_cleaner: r1 == nil && opt.ReceiveOnly ==> !r0.cleaner.conf.Enabled
+
+// The dump callback of SendOnce: every DBI returned by ReadDBINames is either
+// private (prefix _sync) or dumped before the next one is looked at; in shadow
+// mode the shadow DBI is read and the original DBI's name is recorded; values
+// are never dumped raw; the snapshot time is taken inside the transaction.
+//@ func (s *Syncer) SendOnce$1
+//@   noswallow
+//@   after_call lmdbenv.ReadDBINames#0 ghost loc_needDump := 0
+//@   after_call strings.HasPrefix#0 ghost loc_needDump := ite(ret0, 0, 1)
+//@   after_call syncer.(*Syncer).readDBI#0 ghost loc_needDump := 0
+//@   loop 0 invariant every_dbi_dumped: ghost_loc_needDump == 0
+//@   loop 0 invariant not_failed: ghost_loc_failed == 0
+//@   at_call syncer.(*Syncer).readDBI#0 assert dumps_with_headers: !arg4 && arg3 == dbiName && !hasPrefix(arg3, "_sync")
+//@   at_call syncer.(*Syncer).readDBI#0 assert shadow_source: (schemaTracksChanges ==> sameSlice(arg2, arg3)) && (!schemaTracksChanges ==> hasPrefix(arg2, "_sync_shadow_"))
